@@ -5,5 +5,6 @@ CONSTANTS
   Tol = 0
   MaxRows = 2
   NKeys = 2
+  RankByLooks = FALSE
 INVARIANTS SortExists AdjacentIsTotal
 CHECK_DEADLOCK FALSE
